@@ -421,6 +421,15 @@ func (c *Ctx) bindArgs(fn *types.Func, x *ast.CallExpr, st *State) (map[string]V
 	return binds, args
 }
 
+func specSaysFresh(spec *FuncSpec, i, n int) bool {
+	for _, e := range spec.Ensures {
+		if strings.Contains(e.Text, fmt.Sprintf("fresh(result%d)", i)) || (n == 1 && strings.Contains(e.Text, "fresh(result)")) {
+			return true
+		}
+	}
+	return false
+}
+
 func (c *Ctx) callBySpec(spec *FuncSpec, fn *types.Func, x *ast.CallExpr, st *State) []Val {
 	binds, _ := c.bindArgs(fn, x, st)
 	pre := st.clone()
@@ -496,6 +505,13 @@ func (c *Ctx) callBySpec(spec *FuncSpec, fn *types.Func, x *ast.CallExpr, st *St
 			v = pureRes[i]
 		} else {
 			v = c.symbolic(st, "r_"+fn.Name(), rv.Type())
+			// a result the contract declares fresh is a new allocation (a symbolic reference stands for an object that
+			// existed before the call, and assuming fresh() of it would be contradictory)
+			if nt, isPtr := derefNamed(rv.Type()); isPtr && specSaysFresh(spec, i, sig.Results().Len()) {
+				if _, isStruct := nt.Underlying().(*types.Struct); isStruct {
+					v = c.allocStruct(st, nt)
+				}
+			}
 		}
 		if sv, ok := v.(SliceV); ok {
 			sv.Prov = "callee"
@@ -515,6 +531,13 @@ func (c *Ctx) callBySpec(spec *FuncSpec, fn *types.Func, x *ast.CallExpr, st *St
 			continue // byte-content clauses are only assumed by units that state something about contents
 		}
 		c.assumeSpec(st.guard, en, env)
+	}
+	if spec.Extern && len(spec.Ensures) > 0 {
+		// vacuity guard: an assumed (trusted) contract must not contradict what is already known — otherwise everything
+		// after the call would be proved from false
+		c.safeN["consistent@call"]++
+		c.addObl(Obl{Name: fmt.Sprintf("%s/consistent@call#%d[%s]", c.unit, c.safeN["consistent@call"], spec.Name), Kind: "vacuity", Guard: st.guard, Goal: "true", Expect: "sat", Pos: c.pos(x.Pos()),
+			Text: "the state after assuming the trusted contract of " + spec.Name + " is satisfiable"})
 	}
 	c.usedSpecs[specKey(spec.Pkg, spec.Name)] = true
 	if pureKey != "" {
